@@ -8,9 +8,12 @@
 //!  * `total`   totality + strict/lenient agreement on hostile strings (grammar crate and
 //!              QueryParser); the parsers run in worker processes (`--child-total`) because the
 //!              lenient parser can loop forever while allocating
+//!  * `agree`   strict/lenient agreement on queries that hold a reserved word (AND OR NOT IN TO)
+//!              where a value stands: every keyword x quoting style x field form x context, first
+//!              systematically, then with random content / suffix / whitespace (same workers)
 //!
 //! Child modes (same binary): `--child-depth <kind> <n> <api>`, `--child-total`, `--child-one <api#>`.
-//! Debug knobs: `C16_ONLY=depth|sem|total`, `C16_TOTAL_N=<cases>`, `C16_DUMP=<file>` (all violations).
+//! Debug knobs: `C16_ONLY=depth|sem|total|agree`, `C16_TOTAL_N=<cases>`, `C16_DUMP=<file>` (all violations).
 #[path = "c16_util/mod.rs"]
 mod util;
 
@@ -150,6 +153,60 @@ fn lenient_error_class(msg: &str) -> String {
             "regex-literal-followed-by-text".to_string()
         }
         m => slug(m),
+    }
+}
+
+/// The lenient error messages through which the unchanged tree is known to disagree with a strict
+/// parser that succeeds (known_findings.txt, `agree:grammar:strict-ok-lenient-`: regex literals
+/// and the rare leftovers of glued operands), each with the characters without which its cause
+/// cannot be in the input.
+const LISTED_LENIENT_ERRORS: &[(&str, &str)] = &[
+    ("unterminated-regex-literal", "/"),
+    ("regex-literal-followed-by-text", "/"),
+    ("missing-keyword-to", "[{"),
+    ("missing-space", ""),
+    ("unparsed-end-of-query", ""),
+    ("parsed-possible-invalid-field-as-term", ":"),
+];
+
+/// Does the strict tree hold an unquoted literal that starts with `<` or `>` (`title:<`, `>=`
+/// followed by something that is no range bound)? The lenient grammar cannot produce such a
+/// literal: it commits to a range wherever a value starts with `<` or `>`. On these inputs the two
+/// parsers disagree by construction - the recorded cause "title:<".
+fn strict_has_bare_comparison_word(ast: &qg::UserInputAst) -> bool {
+    use qg::{UserInputAst as A, UserInputLeaf as L};
+    match ast {
+        A::Clause(items) => items.iter().any(|(_, x)| strict_has_bare_comparison_word(x)),
+        A::Boost(x, _) => strict_has_bare_comparison_word(x),
+        A::Leaf(l) => match &**l {
+            L::Literal(lit) => lit.delimiter == qg::Delimiter::None && lit.phrase.starts_with(['<', '>']),
+            _ => false,
+        },
+    }
+}
+
+/// Name of the symptom "the lenient parser reports `msg` on `input`, which the strict one accepts
+/// as `strict`". Only the messages recorded for the unchanged tree, together with their cause, keep
+/// a `lenient-error...` name; any other error of the lenient parser on an input the strict parser
+/// accepts - another message, or a recorded one without its cause - is named `but-lenient-error:`
+/// and so never falls under a recorded finding.
+fn lenient_error_symptom(input: &str, strict: &qg::UserInputAst, msg: &str) -> String {
+    let class = lenient_error_class(msg);
+    let listed = LISTED_LENIENT_ERRORS
+        .iter()
+        .any(|(c, needs)| *c == class && (needs.is_empty() || input.contains(|ch: char| needs.contains(ch))));
+    if listed {
+        format!("lenient-error:{class}")
+    } else if strict_has_bare_comparison_word(strict) {
+        if class == "expected-word" {
+            // nothing at all behind the operator
+            format!("lenient-error:{class}")
+        } else {
+            // whatever the lenient parser took for the bound derails what follows
+            format!("lenient-error-after-a-bare-comparison-operator:{class}")
+        }
+    } else {
+        format!("but-lenient-error:{class}")
     }
 }
 
@@ -399,7 +456,7 @@ fn grammar_agreement(
         return vec![];
     }
     let symptom = if !lerrs.is_empty() {
-        format!("lenient-error:{}", lenient_error_class(&lerrs[0].message))
+        lenient_error_symptom(input, strict, &lerrs[0].message)
     } else {
         format!("ast-differs:{}", ast_diff_class(strict, lenient))
     };
@@ -422,7 +479,7 @@ fn grammar_agreement(
     if full != input {
         if let Ok((l2, e2)) = guarded(|| qg::parse_query_lenient(&full)) {
             let residual = if !e2.is_empty() {
-                Some(format!("lenient-error:{}", lenient_error_class(&e2[0].message)))
+                Some(lenient_error_symptom(&full, strict, &e2[0].message))
             } else if &l2 != strict {
                 Some(format!("ast-differs:{}", ast_diff_class(strict, &l2)))
             } else {
@@ -738,6 +795,35 @@ fn total_case(case: u64, rng: &mut Rng, rep: &mut Report, thorough: bool) {
 }
 
 // ---------------------------------------------------------------------------------------------
+// agreement stream: reserved words where a value stands
+
+fn agree_case(case: u64, rng: &mut Rng, rep: &mut Report) {
+    let rw = gen_reserved_word_query(case, rng);
+    let strict_ok = |rep: &Report| rep.counters.get("total:grammar_strict_ok").copied().unwrap_or(0);
+    let before = strict_ok(rep);
+    run_one_total("reserved-word-as-value", &rw.input, rep);
+    let accepted = strict_ok(rep) > before;
+    rep.observe("agree:keyword", rw.keyword);
+    rep.observe("agree:quoting", rw.style);
+    rep.observe("agree:field_form", rw.field);
+    rep.observe("agree:context", rw.context);
+    rep.observe("agree:content", rw.content);
+    rep.observe("agree:suffix", if rw.suffix.is_empty() { "none" } else { rw.suffix });
+    rep.count("agree:inputs", 1);
+    if accepted {
+        // the clause of the property applies: the strict parser succeeded
+        rep.count("agree:inputs_accepted_by_the_strict_grammar", 1);
+        rep.count(&format!("agree:accepted:{}", rw.style), 1);
+        rep.observe("agree:accepted_keyword_x_quoting_x_field", format!("{}|{}|{}", rw.keyword, rw.style, rw.field));
+        rep.nontrivial(format!("rw|{}|{}|{}|{}", rw.keyword, rw.style, rw.field, rw.context));
+    }
+    if case < 3 || (case >= rw_core_size() && case < rw_core_size() + 3) {
+        rep.sample(json!({"stream": "agree", "input": rw.input, "keyword": rw.keyword, "quoting": rw.style,
+            "field_form": rw.field, "context": rw.context, "content": rw.content, "strict_accepts": accepted}));
+    }
+}
+
+// ---------------------------------------------------------------------------------------------
 // semantic stream
 
 struct Corpus {
@@ -970,6 +1056,13 @@ fn sem_case(case: u64, rng: &mut Rng, rep: &mut Report, queries_per_corpus: usiz
             if let Some(i) = ft.find(":analyzer-removes-") {
                 rep.observe("sem:literals_with_removed_token", ft.clone());
                 rep.count(&format!("sem:literals_with{}", &ft[i..].replace(':', "_")), 1);
+            }
+        }
+        // prefix phrases whose analyzer removes the token right before the prefix
+        for l in prefix_over_gap_leaves(&node) {
+            rep.count("sem:prefix_phrases_with_a_removed_token_right_before_the_prefix", 1);
+            if corpus.docs.iter().any(|d| eval_leaf(&l, d)) {
+                rep.count("sem:prefix_phrases_with_a_removed_token_right_before_the_prefix:matching_a_document", 1);
             }
         }
         let mut parsed_everywhere = true;
@@ -1782,6 +1875,11 @@ fn main() {
         rep.merge(run_cases(&ctx_sem, "sem", n_sem, |c, rng, rep| sem_case(c, rng, rep, per_corpus)));
         shutdown_pool();
     }
+    if want("agree") {
+        let n_agree = rw_core_size() * ctx.scale(2, 12) as u64;
+        rep.merge(run_cases(&ctx, "agree", n_agree, agree_case));
+        shutdown_pool();
+    }
     let n_total = std::env::var("C16_TOTAL_N")
         .ok()
         .and_then(|v| v.parse().ok())
@@ -1802,13 +1900,13 @@ fn main() {
     simple_finish(
         &ctx,
         rep,
-        "total: case = one generated string (classes: random UTF-8, lossy byte soup, metacharacter soup, valid queries, their mutations, every prefix of one, unbalanced quotes/brackets, splices, keyword/whitespace variants, long inputs up to 1 MB, nesting <= 200) fed - inside memory-capped worker processes, so that hangs, unbounded allocation and stack overflows are survivable and attributable - to grammar parse_query/parse_query_lenient and to 4 QueryParser configurations (strict + lenient); non-trivial = the string contains grammar metacharacters/keywords; distinct = input class x character-class skeleton (first 28). sem: case = one corpus (1-40 docs, 1-2 segments, every field type, typed fields INDEXED or INDEXED|FAST, three fields whose analyzer removes tokens - sw and the JSON field jt: stop words, lg: tokens of 6 bytes or more - next to the default tokenizer's 40-byte limit on title/body/js, documents embedding pooled sentences with removed tokens between kept ones and phrase / phrase~slop / phrase* / multi-token literals cut from them, plus one title-only document per subset of three focus words) with 10/25 abstract queries, each printed with random whitespace/escaping/quoting/case/redundant parentheses/boosts, parsed in disjunction and conjunction mode and compared (Count and DocSetCollector via the id fast field) with a naive evaluation on the model documents, failing queries are shrunk; non-trivial = accepted by both parsers with the expected match set; distinct = set of grammar features in the query. depth: child-process sweeps of 6 nesting shapes x 4 entry points on an 8 MB main-thread stack.",
+        "agree: case = one query holding a reserved word (AND OR NOT IN TO) where a value stands: keyword x quoting (double / single quotes, each also with a redundant backslash, bare, bare with a backslash) x field form (none, text, blank before / after the colon, string, JSON path, escaped name, unknown) x 50 contexts (alone, parentheses, + / - / NOT, next to terms, operand of AND / OR on either side, boosts, member of a field group, set element, range bound); the first pass walks through all combinations with the exact keyword and single blanks, the following passes through the same combinations with random content (lower case, keyword next to a word, two keywords, padded, glued), suffix (* ~n) and whitespace; judged like the totality inputs (same workers, same four entry points x 4 QueryParser configurations); non-trivial = accepted by the strict grammar, distinct = keyword x quoting x field form x context. total: case = one generated string (classes: random UTF-8, lossy byte soup, metacharacter soup, valid queries, their mutations, every prefix of one, unbalanced quotes/brackets, splices, keyword/whitespace variants, long inputs up to 1 MB, nesting <= 200) fed - inside memory-capped worker processes, so that hangs, unbounded allocation and stack overflows are survivable and attributable - to grammar parse_query/parse_query_lenient and to 4 QueryParser configurations (strict + lenient); non-trivial = the string contains grammar metacharacters/keywords; distinct = input class x character-class skeleton (first 28). sem: case = one corpus (1-40 docs, 1-2 segments, every field type, typed fields INDEXED or INDEXED|FAST, three fields whose analyzer removes tokens - sw and the JSON field jt: stop words, lg: tokens of 6 bytes or more - next to the default tokenizer's 40-byte limit on title/body/js, documents embedding pooled sentences with removed tokens between kept ones and phrase / phrase~slop / phrase* / multi-token literals cut from them, plus one title-only document per subset of three focus words) with 10/25 abstract queries, each printed with random whitespace/escaping/quoting/case/redundant parentheses/boosts, parsed in disjunction and conjunction mode and compared (Count and DocSetCollector via the id fast field) with a naive evaluation on the model documents, failing queries are shrunk; non-trivial = accepted by both parsers with the expected match set; distinct = set of grammar features in the query. depth: child-process sweeps of 6 nesting shapes x 4 entry points on an 8 MB main-thread stack.",
         ctx.scale(500, 5_000),
         &[
             "documented grammar = doc comment of tantivy::query::QueryParser; only forms it defines are generated in the semantic stream (NOT only as a synonym of '-' inside an occur list, as the grammar crate's own tests define it; AND/OR chains whose operands carry '-' or '+' follow the grammar crate's tests: inside a conjunction '-' excludes and '+' changes nothing, a conjunction made only of excluded operands - e.g. the '-y' of 'x OR -y' - matches nothing, '+' is never written on a lone OR alternative; field groups 'field:( expr )' give their field to every unfielded term below them, through boosts and parentheses, and are generated on non-default fields only; field:* (exists) only at syntax-tree level and field:(group) only in the totality stream because QueryParser does not document them; a query made only of excluded clauses must be rejected with AllButQueryForbidden)",
             "meaning-preserving noise = blanks/tabs/newlines between operands and after ':' (only blanks before ':'), a literal blank after AND/OR/NOT, bare words with backslash escapes or single/double quotes with redundant escapes, ASCII case changes on tokenized text, redundant parentheses, boosts",
             "strict and lenient QueryParser results are compared after undoing LogicalAst::simplify (same-occur child clauses spliced into the parent), which only the strict path applies",
-            "QueryParser-level agreement is checked only on inputs where the two grammar-level parsers already agree, so one grammar disagreement is reported once; a grammar disagreement is named after its cause when rewriting that detail (blank after '[' of a set, blank before a closing range bracket, blank after NOT, blanks between adjacent operands) makes the parsers agree while the strict tree stays the same, otherwise after its first symptom",
+            "QueryParser-level agreement is checked only on inputs where the two grammar-level parsers already agree, so one grammar disagreement is reported once; a grammar disagreement is named after its cause when rewriting that detail (blank after '[' of a set, blank before a closing range bracket, blank after NOT, blanks between adjacent operands) makes the parsers agree while the strict tree stays the same, otherwise after its first symptom; an error of the lenient parser keeps a name starting with lenient-error only for the messages and causes recorded for the unchanged tree (a word starting with < or > in the strict tree, which the lenient grammar always reads as a range; regex literals; leftovers of glued operands), every other one is but-lenient-error:<message>",
             "phrase slop is only generated for phrases with two kept terms (|pos_a + gap - pos_b| <= slop, gap = distance of the two terms in the literal, 1 when adjacent; PhraseQuery::set_slop doc); text tokens follow the tokenizer of the field (split on non-alphanumeric, lower-cased); JSON literals are integers, bools or alphabetic words",
             "a literal is tokenised by the analyzer of its field; a token the analyzer removes (stop word, token of 40 / 6 bytes or more) leaves its position empty in the document and in the literal alike, so \"quick the fox\" on a stop-word field is quick, one position left out, fox (naive model: keeps(field, token), no tantivy code); only literals with at least one kept token are generated (what a literal without any token means is not documented), prefix phrases keep two tokens of which the prefix is the last, single terms / set elements / range bounds are kept tokens",
             "a worker without an answer is a verdict only if a fresh one-shot process running a single entry point reproduces it (30 s CPU limit, 384 MB address space); a child killed by a signal with 'stack overflow' on stderr is a stack overflow",
